@@ -23,7 +23,7 @@
    An event is the number of the thread taking its next step; [crun] is the trace acceptor. *)
 From Coq Require Import List NArith Bool Arith.
 Import ListNotations.
-From Oras Require Import Base.Prelude Model.GraphMem Model.GraphStore Model.IndexLTS.
+From Oras Require Import Base.Prelude Generated.GC07 Model.GraphMem Model.GraphStore Model.IndexLTS.
 Local Open Scope nat_scope.
 
 Inductive cop := CPush (n : node) | CTag (n : node) | CUntag (n : node) | CAtomic (o : oop).
@@ -76,3 +76,17 @@ Fixpoint crun content isman fuel (st : cstate) (trace : list nat) : option cstat
 Definition call_done (st : cstate) : bool :=
   forallb (fun t => Nat.eqb (ct_pc t) done_pc) (c_threads st).
 Definition cinit (s : ostore) (ops : list cop) : cstate := mkC s (map (fun o => mkCT o 0) ops).
+
+(* The order of the steps above is the source order of the calls in Store.Push / tag / Tag /
+   Untag, re-read on every run (translator kind "callseq"). *)
+Fixpoint strs_eqb (x y : list str) : bool :=
+  match x, y with
+  | [], [] => true
+  | a :: r, c :: t => str_eqb a c && strs_eqb r t
+  | _, _ => false
+  end.
+Definition oci_step_order : bool :=
+  strs_eqb calls_ociPush [b "s.storage.Push"; b "s.graph.Index"; b "s.tag"] &&
+  strs_eqb calls_ociTagInner [b "s.tagResolver.Tag"; b "s.tagResolver.Tag"; b "s.saveIndex"] &&
+  strs_eqb calls_ociTag [b "s.storage.Exists"; b "s.tag"] &&
+  strs_eqb calls_ociUntag [b "s.tagResolver.Resolve"; b "s.tagResolver.Untag"; b "s.saveIndex"].
